@@ -8,7 +8,7 @@ use futures::{FutureExt, StreamExt};
 use litep2p::{
     protocol::notification::{
         verif::{VerifNotification, VerifServiceCall},
-        NotificationError, NotificationEvent, NotificationHandle, ValidationResult,
+        NotificationError, NotificationEvent, NotificationHandle, NotificationSink, ValidationResult,
     },
     PeerId,
 };
@@ -37,6 +37,7 @@ struct IoState {
     shutdown_gated: bool,
     hs_pushed: bool,
     dropped: bool,
+    written: Vec<u8>,
 }
 
 #[derive(Clone, Default)]
@@ -71,10 +72,11 @@ impl AsyncRead for ScriptedIo {
 
 impl AsyncWrite for ScriptedIo {
     fn poll_write(self: Pin<&mut Self>, _: &mut Context<'_>, buf: &[u8]) -> Poll<io::Result<usize>> {
-        let s = self.0 .0.lock().unwrap();
+        let mut s = self.0 .0.lock().unwrap();
         if s.write_err {
             return Poll::Ready(Err(io::ErrorKind::BrokenPipe.into()));
         }
+        s.written.extend_from_slice(buf);
         Poll::Ready(Ok(buf.len()))
     }
     fn poll_flush(self: Pin<&mut Self>, _: &mut Context<'_>) -> Poll<io::Result<()>> {
@@ -133,6 +135,11 @@ struct Run {
     outbound: [Vec<IoCtl>; NP],
     /// carriers handed to `Connection` tasks (pair per opened stream)
     task_ios: [Vec<(IoCtl, IoCtl)>; NP],
+    /// outbound carriers of all stream periods in the order of the Opened events: (peer, carrier, bytes read so far)
+    periods: Vec<(usize, IoCtl, usize)>,
+    usink: [Option<NotificationSink>; NP],
+    /// return codes of send calls and frames seen on the wire in this step
+    rets: Vec<[u64; 3]>,
     events: Vec<[u64; 3]>,
     /// real 5 s timers that expired (SleepAll)
     real_fired: usize,
@@ -178,6 +185,8 @@ impl Run {
                         if let (Some(a), Some(b)) =
                             (newest_live(&self.inbound[i]), newest_live(&self.outbound[i]))
                         {
+                            let off = b.0.lock().unwrap().written.len();
+                            self.periods.push((i, b.clone(), off));
                             self.task_ios[i].push((a, b));
                         }
                     }
@@ -287,6 +296,43 @@ impl Run {
                     self.notif.fire_timer(peer)
                 }
             }
+            20 => {
+                if self.usink[p].is_none() {
+                    self.usink[p] = self.handle.notification_sink(peer);
+                }
+            }
+            21 | 22 | 23 | 24 => {
+                let payload = vec![(arg >> 8) as u8, (arg & 255) as u8];
+                let code: Option<u64> = match kind {
+                    21 => Some(match self.handle.send_sync_notification(peer, payload) {
+                        Ok(()) => 0,
+                        Err(NotificationError::NoConnection) => 1,
+                        Err(NotificationError::ChannelClogged) => 2,
+                        Err(_) => 9,
+                    }),
+                    22 => Some(match self.handle.send_async_notification(peer, payload).now_or_never() {
+                        Some(Ok(())) => 0,
+                        Some(Err(litep2p::Error::PeerDoesntExist(_))) => 3,
+                        Some(Err(_)) => 9,
+                        None => 8,
+                    }),
+                    23 => self.usink[p].as_ref().map(|sink| match sink.send_sync_notification(payload) {
+                        Ok(()) => 0,
+                        Err(NotificationError::NoConnection) => 1,
+                        Err(NotificationError::ChannelClogged) => 2,
+                        Err(_) => 9,
+                    }),
+                    _ => self.usink[p].as_ref().map(|sink| match sink.send_async_notification(payload).now_or_never() {
+                        Some(Ok(())) => 0,
+                        Some(Err(litep2p::Error::PeerDoesntExist(_))) => 3,
+                        Some(Err(_)) => 9,
+                        None => 8,
+                    }),
+                };
+                if let Some(code) = code {
+                    self.rets.push([3, p as u64, code]);
+                }
+            }
             19 => {
                 // every armed 5 s timer really expires
                 let before = self.notif.timers_len();
@@ -339,8 +385,20 @@ impl Run {
         for e in self.events.drain(..) {
             out.extend(e);
         }
+        // frames written to the outbound substreams of the stream periods since the last step
+        for (gid, (pi, io, off)) in self.periods.iter_mut().enumerate() {
+            let st = io.0.lock().unwrap();
+            while *off + 3 <= st.written.len() && st.written[*off] == 2 {
+                let m = ((st.written[*off + 1] as u64) << 8) | st.written[*off + 2] as u64;
+                self.rets.push([4, *pi as u64, gid as u64 * 1_000_000 + m]);
+                *off += 3;
+            }
+        }
         let calls = self.notif.take_service_calls();
-        out.push(calls.len() as u64);
+        out.push((calls.len() + self.rets.len()) as u64);
+        for r in self.rets.drain(..) {
+            out.extend(r);
+        }
         for c in calls {
             match c {
                 VerifServiceCall::Dial(peer) => out.extend([0, self.pidx(&peer) as u64, 0]),
@@ -383,7 +441,7 @@ fn run_case(c: &[u64]) -> Option<Vec<u64>> {
         return None;
     }
     for i in 0..nops {
-        if c[4 + 3 * i] > 19 || c[5 + 3 * i] >= NP as u64 {
+        if c[4 + 3 * i] > 24 || c[5 + 3 * i] >= NP as u64 {
             return None;
         }
     }
@@ -400,6 +458,9 @@ fn run_case(c: &[u64]) -> Option<Vec<u64>> {
         inbound: Default::default(),
         outbound: Default::default(),
         task_ios: Default::default(),
+        periods: Vec::new(),
+        usink: Default::default(),
+        rets: Vec::new(),
         events: Vec::new(),
         real_fired: 0,
         no_hook_timers: (0..nops).any(|i| c[4 + 3 * i] == 19),
@@ -441,6 +502,7 @@ fn random_op(rng: &mut Rng, slow: bool) -> (u64, u64) {
         96 => if slow { 16 } else { 13 },
         97 => 14,
         98 => if rng.chance(60) { 17 } else { 18 },
+        99 => rng.pick(&[15u64, 20, 21, 22, 23, 24]),
         _ => 15,
     };
     let arg = if kind == 13 || kind == 18 { (slow && rng.chance(50)) as u64 } else { arg };
@@ -488,6 +550,12 @@ fn peer_script(rng: &mut Rng, auto_accept: bool, slow: bool) -> Vec<(u64, u64)> 
         for _ in 0..rng.below(3) {
             s.push((17, 0));
         }
+        if rng.chance(40) {
+            s.push((20, 0));
+        }
+        for _ in 0..rng.below(3) {
+            s.push((rng.pick(&[21u64, 22, 23, 24]), 0));
+        }
         // how the stream ends
         if rng.chance(25) {
             s.push((18, (slow && rng.chance(40)) as u64));
@@ -527,6 +595,7 @@ fn gen_case(rng: &mut Rng, thorough: bool) -> Vec<u64> {
         let p = rng.below(np as u64) as usize;
         if rng.chance(noise) {
             let (k, a) = random_op(rng, slow);
+            let a = if (21..=24).contains(&k) { ops.len() as u64 + 1 } else { a };
             ops.push([k, p as u64, a]);
             continue;
         }
@@ -538,6 +607,7 @@ fn gen_case(rng: &mut Rng, thorough: bool) -> Vec<u64> {
             scripts[p].swap(0, 1);
         }
         if let Some((k, a)) = scripts[p].pop_front() {
+            let a = if (21..=24).contains(&k) { ops.len() as u64 + 1 } else { a };
             ops.push([k, p as u64, a]);
         }
     }
